@@ -14,6 +14,13 @@ CHECKS = {
     ),
 }
 
+CHECKS["C17"] = dict(
+    technique="structural invariants asserted on the real lexer's token lists, on every token reachable from the parsed tree and on every raised error's token (tiling, span re-lex, nesting/order, position bounds, context() text agreement)",
+    text="Exploration: ~9e4 (quick) sources — corpus templates, their mutants, comment/raw/unicode insertions at token boundaries and random fragment concatenations — are tokenized and parsed by the real code; the monitor asserts exact tiling, that each span re-lexes to the same token, nesting and order of expression tokens, and that every error position and context() line refer to the text at that offset.",
+    note="Trusted: the harness's own slicing/re-lexing logic. A position == len(source) counts as inside; -1 on EOI/error tokens is the 'no position' sentinel.",
+    ref="4/C17",
+)
+
 NOT_YET = {}
 
 def main():
